@@ -202,3 +202,34 @@ def host_port_applied(payload):
             if not ok:
                 bad.append({"form": form, "kw": kw, "listen": addrs, "expected_host": host, "expected_port": port})
     return {"total": len(cases) * 2, "failures": bad}
+
+
+def list_spellings(payload):
+    """a list-valued adjustment given as ONE string (elements separated by any run of blanks, tabs or newlines, as documented) equals the list form"""
+    seps = [" ", "  ", "\t", "\n", " \n ", "\r\n", " \t "]
+    bad, total = [], 0
+    lists = [("trusted_proxy_headers", ["x-forwarded-for", "x-forwarded-host", "x-forwarded-proto"], {"trusted_proxy": "127.0.0.1"},
+              lambda a: sorted(a.trusted_proxy_headers)),
+             ("listen", ["127.0.0.1:8080", "127.0.0.1:8081"], {}, lambda a: sorted((l[3][0], l[3][1]) for l in a.listen))]
+    for name, elems, extra, view in lists:
+        try:
+            want = view(Adjustments(**dict(extra, **{name: list(elems)})))
+        except Exception as e:
+            return {"error": "list form refused: %s %s" % (name, e)}
+        for sep in seps:
+            for pad_l, pad_r in (("", ""), (" ", ""), ("", "\n"), ("\t", " ")):
+                text = pad_l + sep.join(elems) + pad_r
+                forms = [("keyword", lambda: Adjustments(**dict(extra, **{name: text})))]
+                if "\n" not in text and "\r" not in text:
+                    argv = ["--%s=%s" % (name.replace("_", "-"), text)] + ["--%s=%s" % (k.replace("_", "-"), v) for k, v in extra.items()]
+                    forms.append(("cli", lambda: Adjustments(**{k: v for k, v in Adjustments.parse_args(argv + ["waitress.compat:WIN"]).items() if k not in ("help", "app")})))
+                for form, build_it in forms:
+                    total += 1
+                    try:
+                        got = view(build_it())
+                    except Exception as e:
+                        bad.append({"adjustment": name, "form": form, "value": text, "error": type(e).__name__ + ": " + str(e)[:80]})
+                        continue
+                    if got != want:
+                        bad.append({"adjustment": name, "form": form, "value": text, "got": got, "expected": want})
+    return {"total": total, "failures": bad}
